@@ -57,7 +57,19 @@ def showPyOut : Py.Out → String
   | .raised => "raised"
   | .wrote bs => "wrote " ++ ",".intercalate (bs.map toString)
 
+def showPyRd : Py.Rd → String
+  | .raised => "raised"
+  | .ret v rest => s!"ret {v} {Hex.render rest}"
+
 def nibSrcStep : List String → String
+  | ["r", f, t, h] =>
+    match t.toNat?, Hex.toBytes? h with
+    | some tok, some bs =>
+      if f == "readInt8" then showPyRd (Gen.NibSrc.dec_readInt8 bs) else if f == "readInt16" then showPyRd (Gen.NibSrc.dec_readInt16 bs)
+      else if f == "readInt20" then showPyRd (Gen.NibSrc.dec_readInt20 bs) else if f == "readInt24" then showPyRd (Gen.NibSrc.dec_readInt24 bs)
+      else if f == "readInt31" then showPyRd (Gen.NibSrc.dec_readInt31 bs) else if f == "readListSize" then showPyRd (Gen.NibSrc.dec_readListSize tok bs)
+      else "bad-op"
+    | _, _ => "bad-op"
   | ["w", f, a] =>
     match a.toNat? with
     | some v =>
